@@ -16,6 +16,7 @@ Trace lines (harness/netsim).  Case header: `<c04|c13|c15|c17> <name> ...`.
   stop                                    => ok | HANG
   banpeer <i> / after                     => ok|err / <sample observation>                 (c13)
   sendtx / saw <i>                        => ok|err|HANG / invtx <0|1>                      (c15)
+  label <i> <class> / rebroadcast         => <node> <CODE> <reason> / seen|not-seen       (c15 corpus scenarios)
   call <Name> / reopen                    => hung <k> / best … btip … ftip … chain … fchain … | err   (c17)
 No model DIFF for the real schedule: the oracle of Neutrino/Spec/Converge.lean judges the observations; a DIFF
 is reported only when the harness and this file disagree about ground truth (the honest tip after an event).
@@ -181,29 +182,55 @@ def runC13 (c : CaseIn) : Array String := Id.run do
 
 /-! ### C15: a broadcast fails only if every replying peer rejected it or the invalid share reaches the threshold -/
 
+/-- ground-truth class of what peer `p` does with the transaction: `accept` (asks for it, stays
+silent), `none` (never asks for it), or the hand-written class of its reject message
+(`label i <class>` lines of the corpus scenarios: mempool | confirmed | invalid | fee | other) -/
+def txClass (labels : List (Nat × String)) (p : PeerX) : String :=
+  match p.tx with
+  | "accept" => "accept"
+  | "reject" => "invalid"
+  | "reject-with" => (labels.find? (·.1 == p.spec.idx)).map (·.2) |>.getD "other"
+  | _ => "none"
+
 def runC15 (c : CaseIn) : Array String := Id.run do
   let mut peers : List PeerX := []
+  let mut labels : List (Nat × String) := []
+  let mut sent := ""
   let mut out : Array String := #[]
   for (ln, line) in c.lines do
     let (op, obs) := splitObs line
     let ws := words op
+    -- from the scripted behaviours: who asks for the tx (getdata) and what each of them answers
+    let classes := (peers.map (txClass labels)).filter (· != "none")
+    let invalid := (classes.filter (· == "invalid")).length
+    let nrep := classes.length
+    let allRepliersReject := nrep > 0 && classes.all (· != "accept")
+    -- invalid / repliers ≥ 0.6  ⇔  5·invalid ≥ 3·repliers
+    let threshold := nrep > 0 && 5 * invalid ≥ 3 * nrep
+    let inMempool := nrep > 0 && classes.all (fun k => k == "accept" || k == "mempool") && classes.any (· == "mempool")
     match ws with
     | "peer" :: _ => if let some px := parsePeer ws obs then peers := peers ++ [px]
+    | ["label", i, cls] => labels := labels ++ [(nat! i, cls)]
     | ["sendtx"] =>
-      -- from the scripted behaviours: who asks for the tx (getdata) and who rejects it with which class
-      let repliers := peers.filter fun p => p.tx == "accept" || p.tx == "reject"
-      let rejecters := peers.filter fun p => p.tx == "reject" || p.tx == "reject-nogetdata"
-      let invalid := (peers.filter fun p => p.tx == "reject").length      -- RejectInvalid; reject-nogetdata uses insufficient fee
-      let allRepliersReject := !repliers.isEmpty && repliers.all fun p => p.tx == "reject"
-      -- invalid / repliers ≥ 0.6  ⇔  5·invalid ≥ 3·repliers
-      let threshold := !repliers.isEmpty && 5 * invalid ≥ 3 * repliers.length
+      sent := obs
       let mayFail := allRepliersReject || threshold
       if obs == "HANG" then
         out := out.push s!"ORACLE-FAIL C15 case {c.num} line {ln}: shape=broadcast-hang SendTransaction did not return"
+      else if obs == "err" && inMempool then
+        out := out.push s!"ORACLE-FAIL C15 case {c.num} line {ln}: shape=mempool-tx-not-rebroadcast SendTransaction failed although every one of the {nrep} replying peer(s) accepted the transaction or answered that it is already in its mempool ({(classes.filter (· == "mempool")).length} mempool answers): the transaction is dropped instead of being rebroadcast"
       else if obs == "err" && !mayFail then
+        let rejecters := peers.filter fun p => p.tx == "reject" || p.tx == "reject-nogetdata" || p.tx == "reject-with"
         let nonReplier := rejecters.any fun p => p.tx == "reject-nogetdata"
         let shape := if nonReplier then "reject-from-non-replier" else "verdict"
-        out := out.push s!"ORACLE-FAIL C15 case {c.num} line {ln}: shape={shape} broadcast reported failed although {repliers.length} peer(s) requested the transaction, {(repliers.filter fun p => p.tx == "reject").length} of them rejected it, and {invalid} called it invalid (rejections came from {rejecters.length} peer(s), {(rejecters.filter fun p => p.tx == "reject-nogetdata").length} of which never requested it)"
+        out := out.push s!"ORACLE-FAIL C15 case {c.num} line {ln}: shape={shape} broadcast reported failed although {nrep} peer(s) requested the transaction, {(classes.filter (· != "accept")).length} of them rejected it, and {invalid} called it invalid (rejections came from {rejecters.length} peer(s), {(rejecters.filter fun p => p.tx == "reject-nogetdata").length} of which never requested it)"
+      else if obs == "ok" && threshold then
+        out := out.push s!"ORACLE-FAIL C15 case {c.num} line {ln}: shape=invalid-threshold-not-honoured SendTransaction succeeded although {invalid} of the {nrep} replying peers called the transaction invalid (share ≥ 0.6)"
+    | ["rebroadcast"] =>
+      if sent == "ok" && obs != "seen" then
+        let shape := if inMempool then "mempool-tx-not-rebroadcast" else "accepted-tx-not-rebroadcast"
+        out := out.push s!"ORACLE-FAIL C15 case {c.num} line {ln}: shape={shape} the broadcast was accepted but the transaction was not announced again after the next block"
+      else if sent == "err" && obs == "seen" then
+        out := out.push s!"ORACLE-FAIL C15 case {c.num} line {ln}: shape=rejected-tx-rebroadcast the broadcast failed but the transaction was announced again after the next block"
     | ["stop"] => if obs == "HANG" then out := out.push s!"ORACLE-FAIL C15 case {c.num} line {ln}: shape=stop-hang Stop did not return"
     | ["setup"] | ["start"] => out := out.push s!"DIFF C15 case {c.num} line {ln}: the simulation could not be set up: {obs}"
     | _ => pure ()
